@@ -134,6 +134,23 @@ def run(ctx):
         c.ob("R5", same, preds[1], "active-predicates-agree", "matches(), stateIn and PureSnapshot.matches() use one predicate" if same else
              f"the 'state is active' predicates differ: {forms}", preds[1].node)
     shared.eligible_bucket_rules(ctx, "R11", "guard")
+    # ---- R12 declared params are withheld from a guard only when there are none, or the guard cannot take them ----
+    from sa.util import canon_atom as _ca, in_handler as _inh
+    cw = p.method("BaseInterpreter", "_call_with_optional_params")
+    fnp, prm = cw.params[0], cw.params[-1]
+    two = [x for x in own_nodes(cw.node) if isinstance(x, ast.Call) and norm(x.func) == fnp and len(x.args) == 2 and not x.keywords]
+    three = [x for x in own_nodes(cw.node) if isinstance(x, ast.Call) and norm(x.func) == fnp and len(x.args) == 3 and norm(x.args[2]) == prm]
+    c.expect("R12", "call of the guard with its params", len(three), 1, cw, "_call_with_optional_params never passes the params to the guard any more")
+    for x in two:
+        at = [_ca(a, pol) for a, pol in guards_at(cw, x)]
+        mine = [t for t in at if prm in (t[1], t[2]) or t[1] == prm]
+        none_only = any(t in (("is", "None", prm, True), ("is", prm, "None", True)) for t in mine)
+        arity = any(("accepts" in t[1] or "varargs" in t[1] or "accepts" in t[2]) for t in at) or _inh(cw, x) is not None
+        other = [t for t in mine if t[0] == "truthy" and t[3] is False or (t[0] in ("==", "in") and t[3] is True)]
+        ok = (none_only or arity) and not other
+        c.ob("R12", ok, cw, "params-withheld-only-when-none", "the guard is called without params only when there are none (None) or it cannot accept a third argument" if ok else
+             f"'{norm(x)}' is reached under {mine}: params that are present but falsy (0, {{}}, [], '') are withheld from a parameterised guard - a three-argument guard "
+             f"then raises TypeError, which counts as 'guard false', and a true guard is decided false", x)
     # ---- R10 stateIn is true exactly when the named state is active ---------------------------------
     si = p.method("BaseInterpreter", "_is_state_in")
     rets = [x for x in own_nodes(si.node) if isinstance(x, ast.Return)]
